@@ -199,13 +199,19 @@ def emit_norm(s):
 
 # ----------------------------------------------------------------------
 def load_known():
-    p = os.path.join(VERIF, "KNOWN_FINDINGS.jsonl")
+    """KNOWN_FINDINGS.txt: `known: property=<id> obligation=<oid> <what>` lines suppress exactly that
+    obligation; `fixed:` lines suppress nothing."""
+    p = os.path.join(VERIF, "KNOWN_FINDINGS.txt")
     out = []
     if os.path.exists(p):
         for ln in open(p):
             ln = ln.strip()
-            if ln and not ln.startswith("#"):
-                out.append(json.loads(ln))
+            m = re.match(r"known:\s+property=(\S+)\s+obligation=(\S+)\s+(.*)", ln)
+            if m:
+                out.append({"status": "known", "property": m.group(1), "obligation": m.group(2), "what": m.group(3)})
+            m = re.match(r"fixed:\s+property=(\S+)\s+(\S+)\s+(.*)", ln)
+            if m:
+                out.append({"status": "fixed", "property": m.group(1), "commit": m.group(2), "what": m.group(3)})
     return out
 
 def fn_time_us(R, rec):
@@ -303,6 +309,10 @@ def run_check(pid, tier, seed):
         except ToolError as e:
             undecided.append("kani: %s" % e); kres = []
         for h, res in kres:
+            if h.get("expect_fail"):
+                if res["status"] != "FAILED":
+                    undecided.append("vacuity guard: kani canary %s did not fail (%s)" % (h["harness"], res["status"]))
+                continue
             ent = {"function": "kani harness %s (%s)" % (h["harness"], h["about"]), "backend": "kani/cbmc",
                    "mode": "proved-kani-complete" if h.get("complete") else "bounded(%s)" % h.get("bound", "?"),
                    "solver_us": int(res["wall_s"] * 1e6), "status": res["status"], "stubs": res.get("stubs", [])}
@@ -351,9 +361,6 @@ def run_check(pid, tier, seed):
         else:
             new_viol.append(v)
     # known findings that are derived refutations (no failing obligation): printed when their witness check passes
-    for k in known:
-        if k.get("kind") == "derived" and not any(k.get("what") in l for l in known_lines):
-            known_lines.append("KNOWN-FINDING: property=%s %s" % (pid, k.get("what")))
     os.makedirs(os.path.join(VERIF, "replay", "out"), exist_ok=True)
     out_lines = []
     seen = set()
